@@ -455,3 +455,429 @@ Proof.
     + constructor.
     + apply IH; [discriminate|exact FA'].
 Qed.
+
+(* ---- objects ---- *)
+
+(* one member (key written by write_string) followed by [,] or [}] *)
+Lemma member_step_written : forall cf, decode_unicode cf = true ->
+  forall d t v, Pv cf d t v ->
+  forall w1 k w2 w3 w4 c tl L fuel fl acc s,
+    ws w1 -> bytes_ok k -> ws w2 -> ws w3 -> ws w4 -> c = 44 \/ c = 125 -> (d <= L)%nat ->
+    good s -> stream s = w1 ++ write_string k ++ w2 ++ 58 :: w3 ++ t ++ w4 ++ c :: tl ->
+    (length (w1 ++ write_string k ++ w2 ++ 58%N :: w3 ++ t ++ w4 ++ c :: tl) < fuel)%nat ->
+    (length (w1 ++ write_string k ++ w2 ++ 58%N :: w3 ++ t ++ w4 ++ c :: tl) < S fl)%nat ->
+    exists s6, good s6 /\ stream s6 = c :: tl /\ cur s6 = Some c /\ found s6 = true /\
+      obj_entry cf (parse_variant cf fuel L) (skip_variant cf fuel L) (S fl) None acc s =
+      (let '(b, s) := eat 125 s6 in
+       if b then (Ok, JObj (assoc_set k v acc), s)
+       else
+         let '(b, s) := eat 44 s in
+         if negb b then (InvalidInput, JObj (assoc_set k v acc), s)
+         else obj_entry cf (parse_variant cf fuel L) (skip_variant cf fuel L) fl None
+                        (assoc_set k v acc) s).
+Proof.
+  intros cf DU d t v IH w1 k w2 w3 w4 c tl L fuel fl acc s W1 BK W2 W3 W4 HC DL G HS LF LL.
+  assert (HC' : c = 44 \/ c = 93 \/ c = 125) by tauto.
+  assert (CZ : c <> 0) by (destruct HC; lia).
+  assert (CS : is_space c = false) by (destruct HC as [->| ->]; reflexivity).
+  assert (C47 : c <> 47) by (destruct HC; lia).
+  pose proof (write_string_length k) as LK.
+  assert (S0 : stream s = w1 ++ 34 :: ((flat_map write_char k ++ [34]) ++ w2 ++ 58 :: w3 ++ t ++ w4 ++ c :: tl))
+    by (rewrite HS; reflexivity).
+  destruct (skip_ws cf w1 W1 (S fl) s 34 _ G S0 ltac:(lia) eq_refl ltac:(lia) ltac:(lens))
+    as (s1 & E1 & G1 & S1 & C1 & F1 & _).
+  assert (S1' : stream s1 = write_string k ++ w2 ++ 58 :: w3 ++ t ++ w4 ++ c :: tl)
+    by (rewrite S1; reflexivity).
+  destruct (parse_key_written cf DU k BK fl s1 _ G1 S1' ltac:(lens)) as (s2 & E2 & G2 & S2 & C2 & F2).
+  destruct (skip_ws cf w2 W2 fl s2 58 _ G2 S2 ltac:(lia) eq_refl ltac:(lia) ltac:(lens))
+    as (s3 & E3 & G3 & S3 & C3 & F3 & _).
+  destruct (eat_yes s3 58 _ G3 S3 ltac:(lia)) as (s4 & E4 & G4 & S4 & C4 & F4).
+  destruct (IH L fuel s4 w3 (w4 ++ c :: tl) W3 DL G4 S4 (delimiter_ws_then cf w4 c tl W4 HC') ltac:(lens))
+    as (s5 & E5 & P5 & F5 & _).
+  destruct (post_good s5 w4 c tl P5 W4 CZ) as (G5 & S5).
+  destruct (skip_ws cf w4 W4 fl s5 c tl G5 S5 CZ CS C47 ltac:(lens)) as (s6 & E6 & G6 & S6 & C6 & F6 & _).
+  exists s6. splits; auto.
+  unfold obj_entry at 1. rewrite E1. cbn [object_loop]. rewrite E2. cbv beta iota.
+  rewrite E3. cbv beta iota. rewrite E4. cbv beta iota zeta. cbn [negb f_member f_allow].
+  rewrite E5. cbv beta iota. rewrite E6. reflexivity.
+Qed.
+
+Lemma case_m_one_written : forall cf, decode_unicode cf = true ->
+  forall d w1 k w2 w3 t v w4,
+    ws w1 -> bytes_ok k -> ws w2 -> ws w3 -> Pv cf d t v -> ws w4 ->
+    Pm cf d (w1 ++ write_string k ++ w2 ++ [58] ++ w3 ++ t ++ w4) [(k, v)].
+Proof.
+  intros cf DU d w1 k w2 w3 t v w4 W1 BK W2 W3 IH W4 L fuel fl s rest acc DL G HS LF LL.
+  rewrite <- !app_assoc in HS, LF, LL. cbn [app] in HS, LF, LL.
+  destruct fl as [|fl]; [lia|].
+  destruct (member_step_written cf DU d t v IH w1 k w2 w3 w4 125 rest L fuel fl acc s
+              W1 BK W2 W3 W4 ltac:(tauto) DL G HS LF LL) as (s6 & G6 & S6 & C6 & F6 & E).
+  rewrite E.
+  destruct (eat_yes s6 125 rest G6 S6 ltac:(lia)) as (s7 & E7 & G7 & S7 & C7 & F7).
+  rewrite E7. exists s7. unfold obj_den. cbn [fold_left fst snd]. splits; auto. congruence.
+Qed.
+
+Lemma case_m_cons_written : forall cf, decode_unicode cf = true ->
+  forall d w1 k w2 w3 t v w4 r ms,
+    ws w1 -> bytes_ok k -> ws w2 -> ws w3 -> Pv cf d t v -> ws w4 -> Pm cf d r ms ->
+    Pm cf d (w1 ++ write_string k ++ w2 ++ [58] ++ w3 ++ t ++ w4 ++ [44] ++ r) ((k, v) :: ms).
+Proof.
+  intros cf DU d w1 k w2 w3 t v w4 r ms W1 BK W2 W3 IHv W4 IHr L fuel fl s rest acc DL G HS LF LL.
+  rewrite <- !app_assoc in HS, LF, LL. cbn [app] in HS, LF, LL.
+  destruct fl as [|fl]; [lia|].
+  destruct (member_step_written cf DU d t v IHv w1 k w2 w3 w4 44 (r ++ 125 :: rest) L fuel fl acc s
+              W1 BK W2 W3 W4 ltac:(tauto) DL G HS LF LL) as (s6 & G6 & S6 & C6 & F6 & E).
+  rewrite E.
+  rewrite (eat_no_some s6 44 125 C6 ltac:(lia)).
+  destruct (eat_yes s6 44 _ G6 S6 ltac:(lia)) as (s7 & E7 & G7 & S7 & C7 & F7).
+  rewrite E7. cbn [negb].
+  destruct (IHr L fuel fl s7 rest (assoc_set k v acc) DL G7 S7 ltac:(lens) ltac:(lens))
+    as (s' & E' & G' & S' & C' & F').
+  exists s'. splits; auto.
+Qed.
+
+Lemma case_obj_head : forall cf d te ms w1 r,
+  ws w1 -> te = w1 ++ 34 :: r -> Pm cf d te ms ->
+  Pv cf (S d) ([123] ++ te ++ [125]) (JObj (obj_den ms [])).
+Proof.
+  intros cf d te ms w1 r W1 Ete IH L fuel s w rest W DL G HS D LF.
+  destruct L as [|L]; [lia|].
+  rewrite <- !app_assoc in HS. cbn [app] in HS.
+  assert (V : vstart 123) by (unfold vstart; tauto).
+  destruct (pv_enter cf w fuel s 123 _ W G HS V ltac:(lens)) as (s1 & E1 & G1 & S1 & C1 & F1).
+  rewrite (pv_obj cf fuel L s s1 E1 C1).
+  destruct (move_cons s1 123 _ G1 C1 S1) as (G2 & S2 & C2 & F2).
+  assert (S2' : stream (move s1) = w1 ++ 34 :: (r ++ 125 :: rest))
+    by (rewrite S2, Ete, <- app_assoc; reflexivity).
+  assert (LW : (length w1 < fuel)%nat) by (rewrite Ete in LF; lens).
+  destruct (skip_ws cf w1 W1 fuel (move s1) 34 _ G2 S2' ltac:(lia) eq_refl ltac:(lia) LW)
+    as (s3 & E3 & G3 & S3 & C3 & F3 & _).
+  rewrite E3. cbv beta iota.
+  rewrite (eat_no_some s3 34 125 C3 ltac:(lia)). cbv beta iota.
+  destruct (IH L fuel fuel (move s1) rest [] ltac:(lia) G2 S2 ltac:(lens) ltac:(lens))
+    as (s' & E' & G' & S' & C' & F').
+  unfold obj_entry in E'. rewrite E3 in E'.
+  rewrite E'. exists s'. splits; auto.
+  - left; auto.
+  - discriminate.
+Qed.
+
+(* members laid out as  w0 (wi "k1" : w3 x1) , w0 (wi "k2" : w3 x2) , ... wz *)
+Lemma Pm_join : forall cf, decode_unicode cf = true ->
+  forall d (txt : jv -> bytes) w0 wi w3 wz, ws w0 -> ws wi -> ws w3 -> ws wz ->
+  forall l, l <> [] ->
+    Forall (fun kv => bytes_ok (fst kv) /\ Pv cf d (txt (snd kv)) (snd kv)) l ->
+    Pm cf d (w0 ++ join ([44] ++ w0)
+                     (map (fun kv => wi ++ write_string (fst kv) ++ [58] ++ w3 ++ txt (snd kv)) l) ++ wz) l.
+Proof.
+  intros cf DU d txt w0 wi w3 wz W0 Wi W3 Wz l. induction l as [|kv l IH]; intros NE FA; [congruence|].
+  inversion FA as [|? ? [Bk Hv] FA']; subst.
+  destruct kv as [k v]. cbn [fst snd] in Bk, Hv.
+  destruct l as [|kv' l].
+  - cbn [map join fst snd].
+    replace (w0 ++ (wi ++ write_string k ++ [58] ++ w3 ++ txt v) ++ wz)
+      with ((w0 ++ wi) ++ write_string k ++ [] ++ [58] ++ w3 ++ txt v ++ wz)
+      by (rewrite <- !app_assoc; reflexivity).
+    apply case_m_one_written; auto; try constructor. apply ws_app; assumption.
+  - cbn [map]. rewrite join_cons2. cbn [fst snd].
+    change ((wi ++ write_string (fst kv') ++ [58] ++ w3 ++ txt (snd kv')) ::
+            map (fun kv => wi ++ write_string (fst kv) ++ [58] ++ w3 ++ txt (snd kv)) l)
+      with (map (fun kv => wi ++ write_string (fst kv) ++ [58] ++ w3 ++ txt (snd kv)) (kv' :: l)).
+    set (J := join ([44] ++ w0)
+                (map (fun kv => wi ++ write_string (fst kv) ++ [58] ++ w3 ++ txt (snd kv)) (kv' :: l))) in *.
+    replace (w0 ++ ((wi ++ write_string k ++ [58] ++ w3 ++ txt v) ++ ([44] ++ w0) ++ J) ++ wz)
+      with ((w0 ++ wi) ++ write_string k ++ [] ++ [58] ++ w3 ++ txt v ++ [] ++ [44] ++ (w0 ++ J ++ wz))
+      by (rewrite <- !app_assoc; reflexivity).
+    apply case_m_cons_written; auto; try constructor.
+    + apply ws_app; assumption.
+    + apply IH; [discriminate|exact FA'].
+Qed.
+
+(* with pairwise distinct keys every member is appended *)
+Lemma assoc_set_fresh : forall k v acc, ~ In k (map fst acc) -> assoc_set k v acc = acc ++ [(k, v)].
+Proof.
+  intros k v acc. induction acc as [|[k' v'] acc IH]; intro H; cbn [assoc_set app]; [reflexivity|].
+  cbn [map fst In] in H.
+  destruct (bytes_eqb k k') eqn:E.
+  - apply bytes_eqb_eq in E. subst. tauto.
+  - rewrite IH by tauto. reflexivity.
+Qed.
+
+Lemma obj_den_nodup : forall l acc, NoDup (map fst acc ++ map fst l) -> obj_den l acc = acc ++ l.
+Proof.
+  induction l as [|[k v] l IH]; intros acc H; cbn [obj_den fold_left fst snd].
+  - rewrite app_nil_r. reflexivity.
+  - cbn [map fst] in H. pose proof (NoDup_remove_2 _ _ _ H) as NI.
+    rewrite assoc_set_fresh by (intro X; apply NI; apply in_or_app; left; exact X).
+    fold (obj_den l (acc ++ [(k, v)])). rewrite IH.
+    + rewrite <- app_assoc. reflexivity.
+    + rewrite map_app. cbn [map fst]. rewrite <- app_assoc. exact H.
+Qed.
+
+(* ---- heads ---- *)
+Lemma vstart_consts : vstart 110 /\ vstart 116 /\ vstart 102 /\ vstart 34 /\ vstart 91 /\ vstart 123.
+Proof. unfold vstart. tauto. Qed.
+
+(* ---- the compact serializer ---- *)
+Lemma ser_scalar_cases : forall cf, decode_unicode cf = true -> forall d v,
+  match v with JArr _ | JObj _ => False | _ => True end -> nofloat v -> PvH cf d (ser cf v) v.
+Proof.
+  intros cf DU d v SC NF. destruct v as [|b|z|f|f|s|r|l|l]; cbn [nofloat] in NF; try contradiction.
+  - split; [apply case_null|]. eexists _, _. split; [reflexivity|unfold vstart; tauto].
+  - destruct b; (split; [first [apply case_true|apply case_false]|]);
+      eexists _, _; (split; [reflexivity|unfold vstart; tauto]).
+  - apply case_int. exact NF.
+  - apply case_string; assumption.
+Qed.
+
+Lemma arr_text_head : forall (txt : jv -> bytes) w0 wi wz sep l,
+  l <> [] -> Forall (fun v => exists c r, txt v = c :: r /\ vstart c) l ->
+  exists c r, w0 ++ join sep (map (fun v => wi ++ txt v) l) ++ wz = (w0 ++ wi) ++ c :: r /\ vstart c.
+Proof.
+  intros txt w0 wi wz sep l NE FA. destruct l as [|v l]; [congruence|].
+  inversion FA as [|? ? (c & r & E & V) _]; subst.
+  exists c. destruct l as [|v' l].
+  - cbn [map join]. rewrite E. exists (r ++ wz). split; [|exact V].
+    rewrite <- !app_assoc. reflexivity.
+  - cbn [map]. rewrite join_cons2, E. eexists. split; [|exact V].
+    rewrite <- !app_assoc. cbn [app]. reflexivity.
+Qed.
+
+Lemma obj_text_head : forall (f : bytes * jv -> bytes) w0 wi wz sep l,
+  l <> [] ->
+  exists r, w0 ++ join sep (map (fun kv => wi ++ write_string (fst kv) ++ f kv) l) ++ wz
+            = (w0 ++ wi) ++ 34 :: r.
+Proof.
+  intros f w0 wi wz sep l NE. destruct l as [|kv l]; [congruence|].
+  destruct l as [|kv' l].
+  - cbn [map join]. rewrite write_string_head. eexists.
+    rewrite <- !app_assoc. cbn [app]. reflexivity.
+  - cbn [map]. rewrite join_cons2, write_string_head. eexists.
+    rewrite <- !app_assoc. cbn [app]. reflexivity.
+Qed.
+
+Lemma PvH_arr : forall cf d (txt : jv -> bytes) w0 wi wz, ws w0 -> ws wi -> ws wz ->
+  forall l, l <> [] -> Forall (fun v => PvH cf d (txt v) v) l ->
+  PvH cf (S d) ([91] ++ (w0 ++ join ([44] ++ w0) (map (fun v => wi ++ txt v) l) ++ wz) ++ [93]) (JArr l).
+Proof.
+  intros cf d txt w0 wi wz W0 Wi Wz l NE FA.
+  split; [|eexists _, _; split; [reflexivity|unfold vstart; tauto]].
+  assert (FA1 : Forall (fun v => Pv cf d (txt v) v) l).
+  { revert FA. apply Forall_impl. intros v [H _]. exact H. }
+  assert (FA2 : Forall (fun v => exists c r, txt v = c :: r /\ vstart c) l).
+  { revert FA. apply Forall_impl. intros v [_ H]. exact H. }
+  destruct (arr_text_head txt w0 wi wz ([44] ++ w0) l NE FA2) as (c & r & E & V).
+  apply (case_arr_head cf d _ l (w0 ++ wi) c r); auto.
+  - apply ws_app; assumption.
+  - apply Pe_join; assumption.
+Qed.
+
+Lemma PvH_obj : forall cf, decode_unicode cf = true ->
+  forall d (txt : jv -> bytes) w0 wi w3 wz, ws w0 -> ws wi -> ws w3 -> ws wz ->
+  forall l, l <> [] -> NoDup (map fst l) ->
+    Forall (fun kv => bytes_ok (fst kv) /\ PvH cf d (txt (snd kv)) (snd kv)) l ->
+    PvH cf (S d)
+      ([123] ++ (w0 ++ join ([44] ++ w0)
+                        (map (fun kv => wi ++ write_string (fst kv) ++ [58] ++ w3 ++ txt (snd kv)) l) ++ wz)
+             ++ [125]) (JObj l).
+Proof.
+  intros cf DU d txt w0 wi w3 wz W0 Wi W3 Wz l NE ND FA.
+  split; [|eexists _, _; split; [reflexivity|unfold vstart; tauto]].
+  assert (FA1 : Forall (fun kv => bytes_ok (fst kv) /\ Pv cf d (txt (snd kv)) (snd kv)) l).
+  { revert FA. apply Forall_impl. intros kv [B [H _]]. auto. }
+  destruct (obj_text_head (fun kv => [58] ++ w3 ++ txt (snd kv)) w0 wi wz ([44] ++ w0) l NE) as (r & E).
+  replace (JObj l) with (JObj (obj_den l [])) by (rewrite obj_den_nodup; [reflexivity|exact ND]).
+  apply (case_obj_head cf d _ l (w0 ++ wi) r); auto.
+  - apply ws_app; assumption.
+  - apply Pm_join; assumption.
+Qed.
+
+Lemma Forall_and2 : forall (A : Type) (P Q R : A -> Prop) l,
+  (forall x, P x -> Q x -> R x) -> Forall P l -> Forall Q l -> Forall R l.
+Proof.
+  intros A P Q R l H FP FQ. rewrite Forall_forall in *. intros x Hx. apply H; auto.
+Qed.
+
+Lemma ser_PvH : forall cf, decode_unicode cf = true ->
+  forall d v, (nesting v <= d)%nat -> nofloat v -> PvH cf d (ser cf v) v.
+Proof.
+  intros cf DU. induction d as [|d IH]; intros v HN NF.
+  - destruct v; try (apply ser_scalar_cases; auto; exact I); cbn [nesting] in HN; lia.
+  - destruct v as [|b|z|f|f|s|r|l|l]; try (apply ser_scalar_cases; auto; exact I).
+    + (* array *)
+      destruct l as [|x l'].
+      * split; [exact (case_arr_empty cf d [] ws_nil)|].
+        eexists _, _. split; [reflexivity|unfold vstart; tauto].
+      * apply nofloat_arr in NF. pose proof (nesting_arr_inv _ _ HN) as HL.
+        assert (FA : Forall (fun v => PvH cf d (ser cf v) v) (x :: l')).
+        { apply (Forall_and2 _ _ _ _ _ (fun v A B => IH v A B) HL NF). }
+        pose proof (PvH_arr cf d (ser cf) [] [] [] ws_nil ws_nil ws_nil (x :: l') ltac:(discriminate) FA) as H.
+        assert (E : [91] ++ ([] ++ join ([44] ++ []) (map (fun v => [] ++ ser cf v) (x :: l')) ++ []) ++ [93]
+                    = ser cf (JArr (x :: l'))) by (rewrite app_nil_r; reflexivity).
+        rewrite E in H. exact H.
+    + (* object *)
+      destruct l as [|x l'].
+      * split; [exact (case_obj_empty cf d [] ws_nil)|].
+        eexists _, _. split; [reflexivity|unfold vstart; tauto].
+      * apply nofloat_obj in NF. destruct NF as [ND NF].
+        pose proof (nesting_obj_inv _ _ HN) as HL.
+        assert (FA : Forall (fun kv => bytes_ok (fst kv) /\ PvH cf d (ser cf (snd kv)) (snd kv)) (x :: l')).
+        { apply (Forall_and2 _ _ _ _ _ (fun kv A B => conj (proj1 B) (IH (snd kv) A (proj2 B))) HL NF). }
+        pose proof (PvH_obj cf DU d (ser cf) [] [] [] [] ws_nil ws_nil ws_nil ws_nil (x :: l')
+                      ltac:(discriminate) ND FA) as H.
+        assert (E : [123] ++ ([] ++ join ([44] ++ [])
+                     (map (fun kv => [] ++ write_string (fst kv) ++ [58] ++ [] ++ ser cf (snd kv)) (x :: l')) ++ [])
+                     ++ [125]
+                    = ser cf (JObj (x :: l'))) by (rewrite app_nil_r; reflexivity).
+        rewrite E in H. exact H.
+Qed.
+
+Theorem ser_parse_roundtrip : forall cf, decode_unicode cf = true ->
+  forall v, nofloat v -> forall L fuel s rest,
+    (nesting v <= L)%nat -> good s -> stream s = ser cf v ++ rest -> delimiter cf rest ->
+    (length (ser cf v ++ rest) < fuel)%nat ->
+    exists s', parse_variant cf fuel L None s = (Ok, v, s') /\ post s' rest.
+Proof.
+  intros cf DU v NF L fuel s rest HN G S D LF.
+  destruct (ser_PvH cf DU (nesting v) v (le_n _) NF) as [H _].
+  destruct (H L fuel s [] rest ws_nil HN G S D LF) as (s' & E & P & _).
+  exists s'. auto.
+Qed.
+
+Lemma json_run_of_Pv : forall cf d t v, Pv cf d t v -> forall L, (d <= L)%nat ->
+  j_err (json_run cf None L t) = Ok /\ j_doc (json_run cf None L t) = v.
+Proof.
+  intros cf d t v H L DL.
+  assert (HS : stream (ps_init t) = [] ++ t ++ []) by (rewrite stream_init, app_nil_r; reflexivity).
+  assert (LF : (length ([] ++ t ++ []) < json_fuel t)%nat)
+    by (rewrite app_nil_r; unfold json_fuel; cbn [app]; lia).
+  destruct (H L (json_fuel t) (ps_init t) [] [] ws_nil DL (good_init t) HS I LF) as (s' & E & P & F & LC).
+  unfold json_run. rewrite E. cbn [j_err j_doc]. split; [|reflexivity].
+  destruct (is_number v) eqn:NV; [|rewrite andb_false_r; reflexivity].
+  rewrite (LC eq_refl). reflexivity.
+Qed.
+
+Corollary json_run_ser : forall cf, decode_unicode cf = true ->
+  forall v, nofloat v -> forall L, (nesting v <= L)%nat ->
+  j_err (json_run cf None L (ser cf v)) = Ok /\ j_doc (json_run cf None L (ser cf v)) = v.
+Proof.
+  intros cf DU v NF L HN.
+  destruct (ser_PvH cf DU (nesting v) v (le_n _) NF) as [H _].
+  exact (json_run_of_Pv cf _ _ _ H L HN).
+Qed.
+
+(* ===================================================================================== *)
+(* Part 3 — the pretty printer differs only by insignificant whitespace                  *)
+
+Lemma ser_pretty_scalar : forall cf nest v,
+  match v with JArr _ | JObj _ => False | _ => True end -> ser_pretty cf nest v = ser cf v.
+Proof. intros cf nest v H. destruct v; try reflexivity; contradiction. Qed.
+
+Lemma ser_pretty_PvH : forall cf, decode_unicode cf = true ->
+  forall d v nest, (nesting v <= d)%nat -> nofloat v -> PvH cf d (ser_pretty cf nest v) v.
+Proof.
+  intros cf DU. induction d as [|d IH]; intros v nest HN NF.
+  - destruct v; try (rewrite ser_pretty_scalar by exact I; apply ser_scalar_cases; auto; exact I);
+      cbn [nesting] in HN; lia.
+  - destruct v as [|b|z|f|f|s|r|l|l];
+      try (rewrite ser_pretty_scalar by exact I; apply ser_scalar_cases; auto; exact I).
+    + (* array *)
+      destruct l as [|x l'].
+      * split; [exact (case_arr_empty cf d [] ws_nil)|].
+        eexists _, _. split; [reflexivity|unfold vstart; tauto].
+      * apply nofloat_arr in NF. pose proof (nesting_arr_inv _ _ HN) as HL.
+        assert (FA : Forall (fun v => PvH cf d (ser_pretty cf (nest + 1) v) v) (x :: l')).
+        { apply (Forall_and2 _ _ _ _ _ (fun v A B => IH v (nest + 1)%Z A B) HL NF). }
+        pose proof (PvH_arr cf d (ser_pretty cf (nest + 1)) crlf (indent (nest + 1)) (crlf ++ indent nest)
+                      ws_crlf (ws_indent _) (ws_app _ _ ws_crlf (ws_indent _))
+                      (x :: l') ltac:(discriminate) FA) as H.
+        assert (E : [91] ++ (crlf ++ join ([44] ++ crlf)
+                       (map (fun v => indent (nest + 1) ++ ser_pretty cf (nest + 1) v) (x :: l'))
+                       ++ crlf ++ indent nest) ++ [93]
+                    = ser_pretty cf nest (JArr (x :: l'))).
+        { change (ser_pretty cf nest (JArr (x :: l'))) with
+            ([91] ++ crlf ++ join ([44] ++ crlf)
+               (map (fun v => indent (nest + 1) ++ ser_pretty cf (nest + 1) v) (x :: l'))
+               ++ crlf ++ indent nest ++ [93]).
+          rewrite <- !app_assoc. reflexivity. }
+        rewrite E in H. exact H.
+    + (* object *)
+      destruct l as [|x l'].
+      * split; [exact (case_obj_empty cf d [] ws_nil)|].
+        eexists _, _. split; [reflexivity|unfold vstart; tauto].
+      * apply nofloat_obj in NF. destruct NF as [ND NF].
+        pose proof (nesting_obj_inv _ _ HN) as HL.
+        assert (FA : Forall (fun kv => bytes_ok (fst kv) /\
+                               PvH cf d (ser_pretty cf (nest + 1) (snd kv)) (snd kv)) (x :: l')).
+        { apply (Forall_and2 _ _ _ _ _
+                   (fun kv A B => conj (proj1 B) (IH (snd kv) (nest + 1)%Z A (proj2 B))) HL NF). }
+        pose proof (PvH_obj cf DU d (ser_pretty cf (nest + 1)) crlf (indent (nest + 1)) [32] (crlf ++ indent nest)
+                      ws_crlf (ws_indent _) ltac:(repeat constructor) (ws_app _ _ ws_crlf (ws_indent _))
+                      (x :: l') ltac:(discriminate) ND FA) as H.
+        assert (E : [123] ++ (crlf ++ join ([44] ++ crlf)
+                       (map (fun kv => indent (nest + 1) ++ write_string (fst kv) ++ [58] ++ [32] ++
+                                       ser_pretty cf (nest + 1) (snd kv)) (x :: l'))
+                       ++ crlf ++ indent nest) ++ [125]
+                    = ser_pretty cf nest (JObj (x :: l'))).
+        { change (ser_pretty cf nest (JObj (x :: l'))) with
+            ([123] ++ crlf ++ join ([44] ++ crlf)
+               (map (fun kv => indent (nest + 1) ++ write_string (fst kv) ++ [58; 32] ++
+                               ser_pretty cf (nest + 1) (snd kv)) (x :: l'))
+               ++ crlf ++ indent nest ++ [125]).
+          rewrite <- !app_assoc. reflexivity. }
+        rewrite E in H. exact H.
+Qed.
+
+(* general form: any starting indentation level, no bound on the depth (the indentation bytes
+   are whitespace whatever the uint8_t counter wraps to) *)
+Theorem pretty_parse_roundtrip_gen : forall cf, decode_unicode cf = true ->
+  forall v nest, nofloat v -> forall L fuel s rest,
+    (nesting v <= L)%nat -> good s -> stream s = ser_pretty cf nest v ++ rest -> delimiter cf rest ->
+    (length (ser_pretty cf nest v ++ rest) < fuel)%nat ->
+    exists s', parse_variant cf fuel L None s = (Ok, v, s') /\ post s' rest.
+Proof.
+  intros cf DU v nest NF L fuel s rest HN G S D LF.
+  destruct (ser_pretty_PvH cf DU (nesting v) v nest (le_n _) NF) as [H _].
+  destruct (H L fuel s [] rest ws_nil HN G S D LF) as (s' & E & P & _).
+  exists s'. auto.
+Qed.
+
+Theorem pretty_parse_roundtrip : forall cf, decode_unicode cf = true ->
+  forall v, nofloat v -> (nesting v < 256)%nat -> forall L fuel s rest,
+    (nesting v <= L)%nat -> good s -> stream s = ser_pretty cf 0 v ++ rest -> delimiter cf rest ->
+    (length (ser_pretty cf 0 v ++ rest) < fuel)%nat ->
+    exists s', parse_variant cf fuel L None s = (Ok, v, s') /\ post s' rest.
+Proof.
+  intros cf DU v NF _. apply pretty_parse_roundtrip_gen; assumption.
+Qed.
+
+Corollary json_run_ser_pretty : forall cf, decode_unicode cf = true ->
+  forall v nest, nofloat v -> forall L, (nesting v <= L)%nat ->
+  j_err (json_run cf None L (ser_pretty cf nest v)) = Ok /\
+  j_doc (json_run cf None L (ser_pretty cf nest v)) = v.
+Proof.
+  intros cf DU v nest NF L HN.
+  destruct (ser_pretty_PvH cf DU (nesting v) v nest (le_n _) NF) as [H _].
+  exact (json_run_of_Pv cf _ _ _ H L HN).
+Qed.
+
+(* the hypotheses are satisfiable: a sample document goes through both theorems *)
+Definition sample_doc : jv :=
+  JObj [([97], JArr [JInt (-5); JStr [0; 10; 200; 34]; JNull; JArr []; JObj []]);
+        ([98], JBool true); ([], JInt 18446744073709551615)].
+
+Lemma sample_nofloat : nofloat sample_doc.
+Proof.
+  apply nofloat_obj. split.
+  - repeat constructor; cbn [In]; intuition discriminate.
+  - repeat constructor; cbn; lia.
+Qed.
+
+Example sample_roundtrip :
+  j_doc (json_run default_cfg None 3 (ser default_cfg sample_doc)) = sample_doc /\
+  j_doc (json_run default_cfg None 3 (ser_pretty default_cfg 0 sample_doc)) = sample_doc.
+Proof.
+  split.
+  - exact (proj2 (json_run_ser default_cfg eq_refl sample_doc sample_nofloat 3%nat (le_n _))).
+  - exact (proj2 (json_run_ser_pretty default_cfg eq_refl sample_doc 0%Z sample_nofloat 3%nat (le_n _))).
+Qed.
